@@ -10,6 +10,18 @@ RPROGS = ['A3/L3x/A0/L3L0TL3', 'A0A3/L3x/L0X/L3L0TL3', 'A0A3/L3x/L0P2/TL3L0T', '
 def reclaim_cases(ctx):
     return [(prog, '>0>0' + 'a' * 8 + '1b' * p + '>2>2>2' + 'c' * 8 + '>1>1' + 'b' * 8, cf) for prog in RPROGS for p in range(1, 60 if ctx.quick() else 140)
             for cf in ([('1', '8', 'o')] if ctx.quick() else [('1', '8', 'o'), ('2', '8', 'o'), ('4', '8', 'c')])]
+# a resize (grow, then shrink back) frozen at every step - inside the garbage collection of a bucket chain it walks as an RCU reader - while the owners of two nodes of
+# those chains delete them, wait for a grace period and release them: the resize must still be counted as a reader by that grace period
+ZPROGS = ['A3A6A9Z3Z0/L6x/L9x', 'A0A3A5Z2Z0/L3x/L5x', 'A4A6Z3Z1/L4x/L6x']
+def resize_reclaim_cases(ctx):
+    out = []
+    for prog in ZPROGS[:2 if ctx.quick() else 3]:
+        na = prog.split('/')[0].count('A')
+        for p in range(0, 150 if ctx.quick() else 320, 2 if ctx.quick() else 1):
+            for cf in ([('1', '8', 'o')] if ctx.quick() else [('1', '8', 'o'), ('2', '8', 'c')]):
+                out.append((prog, '>0' * na + 'a' * 8 + '0a' * p + '>1>1>1' + 'b' * 8 + '>2>2>2' + 'c' * 8 + '0a' * 400, cf))          # frozen inside the grow, or (later) the shrink
+                out.append((prog, '>0' * (na + 1) + 'a' * 8 + '0a' * p + '>1>1>1' + 'b' * 8 + '>2>2>2' + 'c' * 8 + '0a' * 400, cf))    # grow complete, frozen p steps into the shrink
+    return out
 PROGS = ['A0L0P7/L0P2/L0X/L0', 'A0L0X/L0X/L0X', 'A0A1L0X/L0XL1X/L1XL0X', 'A0L0XL0X/L0XA1/L0X', 'A5A0/L5XL0X/L0XL5X/L5X']
 def run(ctx):
     ctx.cov['source_hash'] = source_hash(L.FILES)
@@ -24,12 +36,13 @@ def run(ctx):
         fdriver = build_model_driver(ctx, 'flagproto', 'ExtractFlagProto.v', 'flagproto_driver.ml')
         X.run_cases(ctx, 'ownership among del / replace / add_replace', ximpl, X.gen(ctx, XPROGS, 300 if ctx.quick() else 4000, 'C07x', [('2', '8', 'o'), ('1', '8', 'o')]), flag_driver=fdriver)
         X.run_cases(ctx, 'a deleted node is unreachable after a grace period', ximpl, reclaim_cases(ctx))
+        X.run_cases(ctx, 'a resize walking a chain is a reader: nodes deleted meanwhile are not released under it', ximpl, resize_reclaim_cases(ctx))
         dcases = [(prog, '0' * p1 + '1' * w1 + '0000000001' * 60, ('2', '8', 'o')) for prog in DPROGS for p1 in range(60, 420, 4 if ctx.quick() else 1) for w1 in (4, 9, 15)]
         driver = build_model_driver(ctx, 'resizeproto', 'ExtractResizeProto.v', 'resizeproto_driver.ml')
         X.run_cases(ctx, 'released bucket tables are never touched again', ximpl, dcases, proto_driver=driver)
         X.run_cases(ctx, 'the table itself after cds_lfht_destroy (work-queue thread still inside its resize work item)', ximpl, X.lazy_destroy_cases(ctx), nontrivial=lambda raw: ' free tb' in raw)
-    return finish(ctx, trusted=L.TRUSTED + ['C07 partial: "no access after a grace period" is proved for the queue (C12 theorem) with the same ghost-clock device; '
-                  'for the table only the single-owner half is a theorem so far'],
+    return finish(ctx, trusted=L.TRUSTED + ['"no access after a grace period": theorem on the pc-level model without resize (Lfht/LfhtDead.v: unlinked stays unlinked, a thread without references never reaches the node); '
+                  'the resize paths (their garbage collection runs as an RCU reader) are covered by the quarantine oracle only'],
                   rule='corpus + parking sweeps + bursty schedules of 2-4 threads all looking up and deleting the same nodes; non-trivial = at least two del calls and contention')
 def replay(ctx, rp):
     return X.replay(ctx, rp) if (rp.get('failing_input') or {}).get('scenario') == 'scen_lfhtx' else L.replay(ctx, rp)
